@@ -3,6 +3,9 @@ import PrysmVerif.Lemmas.C11Maps
 import PrysmVerif.Lemmas.C11Py
 import PrysmVerif.Lemmas.C11Real
 import PrysmVerif.Lemmas.C11Sem
+import PrysmVerif.Lemmas.C11Names
+import Mathlib.Data.List.Nodup
+import Mathlib.Data.List.Perm.Subperm
 import Mathlib.Tactic.LinearCombination
 import Mathlib.Data.Set.Function
 /-!
@@ -77,7 +80,11 @@ theorem gen_fringeToNm (j : Int) : Generated.C11.fringeToNm j = Model.C11.fringe
     generalize pyCeilSqrt j = c
     -- the position inside the block, `r = j - k² - 1` with `k = c - 1`
     rw [floor_eq_of _ (j - (c - 1) * (c - 1) - 1), modQ_eq_of _ _ (j - (c - 1) * (c - 1) - 1)]
-    · refine Prod.ext ?_ ?_ <;> (try simp only []) <;> (apply Py.int_shift0; push_cast; ring1)
+    · first
+      | (refine Prod.ext ?_ ?_ <;> (try simp only []) <;> (apply Py.int_shift0; push_cast; ring1))
+      | -- `n` converted by `int()` before it is used for `m`: resolve the inner `int(..)` first
+        (rw [Py.int_shift0 _ ((c - 1) + (j - (c - 1) * (c - 1) - 1) / 2) (by push_cast; ring1)]
+         refine Prod.ext ?_ ?_ <;> (try simp only []) <;> first | rfl | ring1 | (apply Py.int_shift0; push_cast; ring1))
     all_goals first | (push_cast; ring1) | norm_num
 
 
@@ -211,7 +218,7 @@ theorem gen_xyJToMn (j : Int) (hj : 1 ≤ j) : Generated.C11.xyJToMn j = some (M
     simp only []
     -- first loop: k climbs to d + 2, max_j to tri (d + 1)
     rw [whileFuel_traj' _ _ (fun i => (((i : Int) + 2), if i = 0 then 3 else tri ((i : Int) + 1))) d.toNat _ _
-      (by simp only [Nat.cast_zero, zero_add, if_true, Prod.mk.injEq]; constructor <;> first | trivial | omega | decide) (by omega)
+      (by simp only [Nat.cast_zero, zero_add, if_true, Prod.mk.injEq]; first | done | (constructor <;> first | trivial | omega | decide)) (by omega)
       (fun i hi => by
         simp only [decide_eq_true_eq]
         split
@@ -255,6 +262,8 @@ theorem gen_xyJToMn (j : Int) (hj : 1 ≤ j) : Generated.C11.xyJToMn j = some (M
       exact ⟨by omega, trivial⟩
     -- every conditional on the way (|j - y_end|, |j - x_end|, which walk) is split; each leaf is one of the two walks
     repeat' split
+    -- a walk whose start / step were chosen by a (tuple) assignment before one merged loop: substitute the chosen values
+    all_goals (try simp only [Option.bind_some])
     all_goals first
       | (rw [loop2] <;> first
           | (simp only [Option.bind_some]; done)
@@ -540,5 +549,321 @@ example : Valid 4 (-2) ∧ ¬ Valid 4 3 ∧ ¬ Valid 2 4 := by decide
 example : Generated.C11.nmToAnsiJ 4 (-2) = 11 ∧ Generated.C11.nmToFringe 4 (-2) = 13 := by
   rw [gen_nmToAnsiJ _ _ (by decide), gen_nmToFringe _ _ (by decide)]; decide
 example : nmToNoll 4 (-2) = 13 ∧ mnToXyJ 2 1 = 8 := by decide
+
+
+/-! ## 4. (session 3) the other index-convention helpers: names of the orders, pairing of the ±m terms -/
+
+/-- `_name_accessor` (whole body, exact rational arithmetic) is the ordinal of the model on every valid order with `m ≠ 0`, `n ≥ 2`
+    (the orders `nm_to_name` passes to it): position of `n` in its column, odd columns counted from `n = 3` -/
+theorem gen_nameAccessor (n m : Int) (h : Valid n m) (hm : m ≠ 0) (hn : 2 ≤ n) :
+    Generated.C11.nameAccessor n m = some (Model.C11.nameAccessor n m) := by
+  first
+  | exact rfl
+  | skip
+    obtain ⟨h1, h2⟩ := h
+    unfold Generated.C11.nameAccessor Model.C11.nameAccessor
+    simp only [Generated.C11.isOdd, iabs] at *
+    by_cases ho : m % 2 = 1
+    · -- odd column: n is odd, n ≥ 3
+      obtain ⟨k, rfl⟩ : ∃ k, n = 2 * k + 1 := ⟨(n - 1) / 2, by split at h2 <;> omega⟩
+      have hk : 1 ≤ k := by omega
+      have e1 : (2 * k + 1 - 1) / 2 = k := by omega
+      simp only [hm, ho, false_and, if_false, if_true, ne_eq, one_ne_zero, not_false_eq_true, true_and, ge_iff_le,
+        show (3 : Int) ≤ 2 * k + 1 by omega, e1]
+      first
+      | (generalize hv : Py.int _ = v
+         have hz : v = k := by rw [← hv]; apply Py.int_shift0; push_cast; ring1
+         subst hz
+         simp only [show ¬ (v < 0) by omega, if_false])
+      | (congr 1; (try split_ifs) <;> omega)      -- the ordinal written with integer division
+    · -- even column
+      have ho' : m % 2 = 0 := by omega
+      simp only [hm, ho, ho', false_and, if_false, ne_eq, not_true_eq_false, zero_ne_one]
+      first
+      | done      -- identical to the model after unfolding
+      | skip
+        by_cases hneg : m < 0
+        · obtain ⟨k, rfl⟩ : ∃ k, n = 2 * k + -m := ⟨(n + m) / 2, by rw [if_pos hneg] at h2; omega⟩
+          simp only [hneg, if_true]
+          have e1 : (2 * k + -m - -m) / 2 = k := by omega
+          first
+          | (rw [e1]; first | done | (congr 1; first | omega | (apply Py.int_shift0; push_cast; ring1)))
+          | (congr 1; first | omega | (apply Py.int_shift0; push_cast; ring1))
+        · obtain ⟨k, rfl⟩ : ∃ k, n = 2 * k + m := ⟨(n - m) / 2, by rw [if_neg hneg] at h2; omega⟩
+          simp only [hneg, if_false]
+          have e1 : (2 * k + m - m) / 2 = k := by omega
+          first
+          | (rw [e1]; first | done | (congr 1; first | omega | (apply Py.int_shift0; push_cast; ring1)))
+          | (congr 1; first | omega | (apply Py.int_shift0; push_cast; ring1))
+
+/-- the ordinal `nm_to_name` gives a spherical term `(n, 0)` is `n/2 - 1`, every even `n` -/
+theorem gen_sphericalAccessor (n m : Int) (hn : n % 2 = 0) :
+    Generated.C11.sphericalAccessor n m = Model.C11.sphericalAccessor n := by
+  first
+  | exact rfl
+  | skip
+    obtain ⟨k, rfl⟩ : ∃ k, n = 2 * k := ⟨n / 2, by omega⟩
+    unfold Generated.C11.sphericalAccessor Model.C11.sphericalAccessor
+    have e1 : (2 * k) / 2 = k := by omega
+    rw [e1]
+    generalize hv : Py.int _ = v
+    first
+    | (have hz : v = k - 1 := by rw [← hv]; apply Py.int_shift0; push_cast; ring1
+       rw [hz])
+    | (have hz : v = k := by rw [← hv]; apply Py.int_shift0; push_cast; ring1
+       rw [hz])
+
+/-- the key under which `zernikes_to_magnitude_angle_nmkey` collects coefficients is `(n, |m|)`, all `n, m` -/
+theorem gen_magangKey (n m : Int) : Generated.C11.magangKey n m = Model.C11.magangKey n m := by
+  first
+  | exact rfl
+  | (unfold Generated.C11.magangKey Model.C11.magangKey iabs
+     refine Prod.ext ?_ ?_ <;> simp only [] <;> (try split) <;> omega)
+
+/-- the ordinal-name and column-name tables `_names`, `_names_m` have pairwise different keys and pairwise different words -/
+theorem names_tables_distinct :
+    (Generated.C11.namesTable.map Prod.fst).Nodup ∧ (Generated.C11.namesTable.map Prod.snd).Nodup ∧
+    (Generated.C11.namesMTable.map Prod.fst).Nodup ∧ (Generated.C11.namesMTable.map Prod.snd).Nodup := by
+  decide
+
+/-- `nm_to_name` is one-to-one on the valid orders at the level of its structure (kind, ordinal, column name, suffix): two valid
+    orders with the same ordinal, the same `|m|` entry of the name table and the same suffix are the same order — so no two
+    coefficients of an expansion share a name, and `zernikes_to_magnitude_angle` (a dict keyed by names) loses none.  The ordinals
+    are tied to the source by `gen_nameAccessor` / `gen_sphericalAccessor`, the tables by `names_tables_distinct`; that the real
+    strings have this structure is compared on every valid order up to the tier bound (harness item `name`). -/
+theorem name_key_injective (n m n' m' : Int) (h : Valid n m) (h' : Valid n' m')
+    (e : nameKey n m = nameKey n' m') : n = n' ∧ m = m' :=
+  nameKey_injective n m n' m' h h' e
+
+/-- the same over the generated ordinal: inside a column `m ≠ 0` the ordinal `_name_accessor` returns determines `n` -/
+theorem name_accessor_injective_in_column (n n' m : Int) (h : Valid n m) (h' : Valid n' m) (hm : m ≠ 0) (hn : 2 ≤ n) (hn' : 2 ≤ n')
+    (e : Generated.C11.nameAccessor n m = Generated.C11.nameAccessor n' m) : n = n' := by
+  rw [gen_nameAccessor n m h hm hn, gen_nameAccessor n' m h' hm hn'] at e
+  have e' := Option.some.inj e
+  obtain ⟨h1, h2⟩ := h
+  obtain ⟨h1', h2'⟩ := h'
+  unfold Model.C11.nameAccessor at e'
+  rcases iabs_cases m with ⟨s, a⟩ | ⟨s, a⟩ <;> rw [a] at h1 h2 h1' h2' e' <;> split_ifs at e' <;> omega
+
+example : Valid 6 4 ∧ Valid 4 4 ∧ Generated.C11.nameAccessor 6 4 = some 2 ∧ Generated.C11.nameAccessor 4 4 = some 1 := by
+  refine ⟨by decide, by decide, ?_, ?_⟩ <;> (rw [gen_nameAccessor _ _ (by decide) (by decide) (by decide)]; rfl)
+
+/-- two coefficients land in the same magnitude/angle group exactly when they are the `+m` and `-m` terms of one `(n, |m|)` -/
+theorem magang_pairs_exactly_pm (n m n' m' : Int) :
+    Generated.C11.magangKey n m = Generated.C11.magangKey n' m' ↔ n = n' ∧ (m = m' ∨ m = -m') := by
+  rw [gen_magangKey, gen_magangKey]
+  unfold Model.C11.magangKey iabs
+  simp only [Prod.mk.injEq]
+  constructor
+  · rintro ⟨a, b⟩; refine ⟨a, ?_⟩; split_ifs at b <;> omega
+  · rintro ⟨a, b⟩; refine ⟨a, ?_⟩; split_ifs <;> omega
+
+/-- in a coefficient list that names each order at most once every group has at most two members — `arctan2(*value)` is never
+    called with three arguments (no TypeError) -/
+theorem magang_group_size_le_two (l : List (Int × Int)) (hl : l.Nodup) (k : Int × Int) :
+    (l.filter (fun p => Generated.C11.magangKey p.1 p.2 = k)).length ≤ 2 := by
+  have hnd : (l.filter (fun p => Generated.C11.magangKey p.1 p.2 = k)).Nodup := hl.filter _
+  have hsub : (l.filter (fun p => decide (Generated.C11.magangKey p.1 p.2 = k))) ⊆ [(k.1, k.2), (k.1, -k.2)] := by
+    intro p hp
+    have hp2 := (List.mem_filter.mp hp).2
+    simp only [decide_eq_true_eq] at hp2
+    rw [gen_magangKey] at hp2
+    unfold Model.C11.magangKey iabs at hp2
+    have a : p.1 = k.1 := by rw [← hp2]
+    have b : p.2 = k.2 ∨ p.2 = -k.2 := by
+      rw [← hp2]; simp only []; split_ifs <;> omega
+    rcases b with b | b
+    · exact List.mem_cons.mpr (Or.inl (Prod.ext a b))
+    · exact List.mem_cons.mpr (Or.inr (List.mem_singleton.mpr (Prod.ext a b)))
+  exact (List.Nodup.subperm hnd hsub).length_le
+
+example : ∃ l : List (Int × Int), l.Nodup ∧ (l.filter (fun p => Generated.C11.magangKey p.1 p.2 = (2, 2))).length = 2 :=
+  ⟨[(2, 2), (3, 1), (2, -2)], by decide, by decide⟩
+
+
+/-- `nm_to_name` together with `_name_helper` (whole bodies; every string replaced by its structure code: constant names, ordinal
+    word `_names.get(k, f'{k}th')` ↦ k, column word `_names_m.get(k, f'{k}-foil')` ↦ k, suffix ↦ 0..3) returns — never raises — the
+    structure of the model on every valid order: the order of the special cases (piston, tilt, defocus, spherical), which ordinal
+    goes with which branch, and the X/Y/00°/45° rule -/
+theorem gen_nameKey (n m : Int) (h : Valid n m) : Generated.C11.nameKey n m = some (Model.C11.nameKey n m) := by
+  first
+  | exact rfl
+  | skip
+    have hv := h
+    obtain ⟨h1, h2⟩ := hv
+    rcases nameKey_cases n m h with ⟨a, b, k⟩ | ⟨a, b, k⟩ | ⟨a, b, k⟩ | ⟨a, b, k⟩ | ⟨a, b, k⟩ | ⟨a, b, c, k⟩ | ⟨a, b, c, k⟩ | ⟨a, b, c, k⟩ | ⟨a, b, c, k⟩
+    · subst a; subst b; rw [k]; simp [Generated.C11.nameKey]
+    · subst a; subst b; rw [k]; simp [Generated.C11.nameKey, Generated.C11.sign]
+    · subst a; subst b; rw [k]; simp [Generated.C11.nameKey, Generated.C11.sign]
+    · subst a; subst b; rw [k]; simp [Generated.C11.nameKey]
+    · subst b
+      have hn : n % 2 = 0 := by simp only [iabs] at h2; omega
+      have e := gen_sphericalAccessor n 0 hn
+      unfold Generated.C11.sphericalAccessor Model.C11.sphericalAccessor at e
+      rw [k]
+      simp only [Generated.C11.nameKey, show ¬ (n = 0) by omega, show ¬ (n = 1) by omega, show ¬ (n = 2) by omega,
+        if_false, if_true, false_and, e]
+    all_goals
+      have hm : m ≠ 0 := by omega
+      have e := gen_nameAccessor n m h hm a
+      have hs : Generated.C11.sign m = if m < 0 then -1 else 1 := gen_sign m
+      rw [k]
+      rcases iabs_cases m with ⟨s, ia⟩ | ⟨s, ia⟩
+      · have s' : ¬ (m < 0) := by omega
+        rw [if_neg s'] at hs
+        simp only [Generated.C11.nameKey, e, Model.C11.nameAccessor, Generated.C11.isOdd, hs, ia, Option.bind_some,
+          show ¬ (n = 0) by omega, show ¬ (n = 1) by omega, hm, c, s, s', if_false, if_true, and_false, false_and]
+        first | omega | (simp <;> omega)
+      · have s' : ¬ (0 ≤ m) := by omega
+        rw [if_pos s] at hs
+        simp only [Generated.C11.nameKey, e, Model.C11.nameAccessor, Generated.C11.isOdd, hs, ia, Option.bind_some,
+          show ¬ (n = 0) by omega, show ¬ (n = 1) by omega, hm, c, s, s', if_false, if_true, and_false, false_and]
+        first | omega | (simp <;> omega)
+
+/-- `nm_to_name` is one-to-one on the valid orders, stated over the translated function: two valid orders whose names have the same
+    structure (kind, ordinal, column word, suffix) are the same order.  (That different structures print as different strings rests on
+    `names_tables_distinct` and the f-string layout; compared on every valid order up to the tier bound.) -/
+theorem name_injective (n m n' m' : Int) (h : Valid n m) (h' : Valid n' m')
+    (e : Generated.C11.nameKey n m = Generated.C11.nameKey n' m') : n = n' ∧ m = m' := by
+  rw [gen_nameKey n m h, gen_nameKey n' m' h'] at e
+  exact nameKey_injective n m n' m' h h' (Option.some.inj e)
+
+/-- `nm_to_name` returns a name for every valid order (the division by `|m|` / the table look-ups never raise) -/
+theorem name_total (n m : Int) (h : Valid n m) : (Generated.C11.nameKey n m).isSome = true := by
+  rw [gen_nameKey n m h]; rfl
+
+example : Generated.C11.nameKey 6 (-4) = some (4, 2, 4, 3) ∧ Generated.C11.nameKey 4 (-4) = some (4, 1, 4, 3) := by
+  constructor <;> (rw [gen_nameKey _ _ (by decide)]; rfl)
+
+
+/-- the dict keys of `zernikes_to_magnitude_angle` — the name of `(n, |m|)` without its suffix — are one-to-one on the classes:
+    two valid `(n, a)`, `(n', a')` with `a, a' ≥ 0` whose names agree in (kind, ordinal, column word) are the same class, so no
+    class overwrites another (structure level; ordinals and branch order are those of the translated `nm_to_name`) -/
+theorem magang_name_keys_injective (n a n' a' : Int) (h : Valid n a) (h' : Valid n' a') (ha : 0 ≤ a) (ha' : 0 ≤ a')
+    (k k' : Int × Int × Int × Int) (hk : Generated.C11.nameKey n a = some k) (hk' : Generated.C11.nameKey n' a' = some k')
+    (e : (k.1, k.2.1, k.2.2.1) = (k'.1, k'.2.1, k'.2.2.1)) : n = n' ∧ a = a' := by
+  rw [gen_nameKey n a h] at hk
+  rw [gen_nameKey n' a' h'] at hk'
+  have e1 := Option.some.inj hk
+  have e2 := Option.some.inj hk'
+  subst e1; subst e2
+  simp only [Prod.mk.injEq] at e
+  obtain ⟨h1, h2⟩ := h
+  obtain ⟨h1', h2'⟩ := h'
+  rcases iabs_cases a with ⟨s, ia⟩ | ⟨s, ia⟩ <;> rw [ia] at h1 h2 <;>
+  rcases iabs_cases a' with ⟨s', ia'⟩ | ⟨s', ia'⟩ <;> rw [ia'] at h1' h2' <;>
+  rcases nameKey_cases n a ⟨by rw [ia]; exact h1, by rw [ia]; exact h2⟩ with ⟨_, _, k⟩ | ⟨_, _, k⟩ | ⟨_, _, k⟩ | ⟨_, _, k⟩ | ⟨_, _, k⟩ | ⟨_, _, _, k⟩ | ⟨_, _, _, k⟩ | ⟨_, _, _, k⟩ | ⟨_, _, _, k⟩ <;>
+  rcases nameKey_cases n' a' ⟨by rw [ia']; exact h1', by rw [ia']; exact h2'⟩ with ⟨_, _, k'⟩ | ⟨_, _, k'⟩ | ⟨_, _, k'⟩ | ⟨_, _, k'⟩ | ⟨_, _, k'⟩ | ⟨_, _, _, k'⟩ | ⟨_, _, _, k'⟩ | ⟨_, _, _, k'⟩ | ⟨_, _, _, k'⟩ <;>
+  (rw [k, k'] at e; simp only at e; omega)
+
+example : Valid 6 4 ∧ Generated.C11.nameKey 6 4 = some (4, 2, 4, 2) := by
+  refine ⟨by decide, ?_⟩; rw [gen_nameKey _ _ (by decide)]; rfl
+
+
+/-- the groups of `zernikes_to_magnitude_angle_nmkey` (specification `groupByKey`, which the real dict is compared with on every generated
+    list) partition the coefficient list: keys pairwise different, every group non-empty with ascending positions, a position is in a
+    group exactly when its term has the group's `(n, |m|)`, and every position is in some group — no coefficient is dropped or counted twice -/
+theorem magang_grouping_partition (l : List (Int × Int)) :
+    ((groupByKey l).map Prod.fst).Nodup ∧
+    (∀ g ∈ groupByKey l, g.2 ≠ [] ∧ g.2.Pairwise (· < ·) ∧
+      ∀ i, i ∈ g.2 ↔ ∃ h : i < l.length, Generated.C11.magangKey (l[i]).1 (l[i]).2 = g.1) ∧
+    (∀ i (h : i < l.length), ∃ g ∈ groupByKey l, g.1 = Generated.C11.magangKey (l[i]).1 (l[i]).2) := by
+  simp only [gen_magangKey]
+  refine ⟨?_, ?_, ?_⟩
+  · unfold groupByKey
+    rw [List.map_map]
+    have : (Prod.fst ∘ fun k => (k, positionsOf l k)) = id := by funext k; rfl
+    rw [this, List.map_id]
+    exact firstKeys_nodup l
+  · intro g hg
+    unfold groupByKey at hg
+    obtain ⟨k, hk, rfl⟩ := List.mem_map.mp hg
+    refine ⟨?_, positionsOf_sorted l k, fun i => mem_positionsOf l k i⟩
+    obtain ⟨p, hp, e⟩ := (mem_firstKeys l k).mp hk
+    obtain ⟨i, hi, rfl⟩ := List.getElem_of_mem hp
+    intro hnil
+    have : i ∈ positionsOf l k := (mem_positionsOf l k i).mpr ⟨hi, e⟩
+    simp only [] at hnil
+    rw [hnil] at this
+    exact absurd this (List.not_mem_nil)
+  · intro i h
+    refine ⟨(magangKey (l[i]).1 (l[i]).2, positionsOf l (magangKey (l[i]).1 (l[i]).2)), ?_, rfl⟩
+    unfold groupByKey
+    exact List.mem_map.mpr ⟨_, (mem_firstKeys l _).mpr ⟨l[i], List.getElem_mem h, rfl⟩, rfl⟩
+
+/-- in a coefficient list that names each order at most once, every group of the specification has one or two members: the
+    `len(value) == 1` branch or `arctan2(first, second)`, never a TypeError -/
+theorem magang_groups_le_two (l : List (Int × Int)) (hl : l.Nodup) : ∀ g ∈ groupByKey l, g.2.length ≤ 2 := by
+  intro g hg
+  unfold groupByKey at hg
+  obtain ⟨k, _, rfl⟩ := List.mem_map.mp hg
+  simp only []
+  have hnd : (positionsOf l k).Nodup := (positionsOf_sorted l k).imp (fun h => Nat.ne_of_lt h)
+  have hnd2 : ((positionsOf l k).map (fun i => l.getD i (0, 0))).Nodup := by
+    apply List.Nodup.map_on _ hnd
+    intro i hi j hj e
+    obtain ⟨h1, _⟩ := (mem_positionsOf l k i).mp hi
+    obtain ⟨h2, _⟩ := (mem_positionsOf l k j).mp hj
+    simp only [List.getD_eq_getElem?_getD, List.getElem?_eq_getElem h1, List.getElem?_eq_getElem h2, Option.getD_some] at e
+    exact (List.Nodup.getElem_inj_iff hl).mp e
+  have hsub : ((positionsOf l k).map (fun i => l.getD i (0, 0))) ⊆ [(k.1, k.2), (k.1, -k.2)] := by
+    intro p hp
+    obtain ⟨i, hi, rfl⟩ := List.mem_map.mp hp
+    obtain ⟨h1, e⟩ := (mem_positionsOf l k i).mp hi
+    simp only [List.getD_eq_getElem?_getD, List.getElem?_eq_getElem h1, Option.getD_some]
+    unfold Model.C11.magangKey iabs at e
+    have a : (l[i]).1 = k.1 := by rw [← e]
+    have b : (l[i]).2 = k.2 ∨ (l[i]).2 = -k.2 := by
+      rw [← e]; simp only []; split_ifs <;> omega
+    rcases b with b | b
+    · exact List.mem_cons.mpr (Or.inl (Prod.ext a b))
+    · exact List.mem_cons.mpr (Or.inr (List.mem_singleton.mpr (Prod.ext a b)))
+  have := (List.Nodup.subperm hnd2 hsub).length_le
+  simpa using this
+
+example : groupByKey [(2, 2), (3, 1), (2, -2), (0, 0)] = [((2, 2), [0, 2]), ((3, 1), [1]), ((0, 0), [3])] := by decide
+
+
+/-- the name suffix of an order says whether it is a cosine or a sine term: for a valid `(n, m)`, `n ≥ 2`, the translated
+    `nm_to_name` ends in `X` / `00°` exactly when `m > 0` and in `Y` / `45°` exactly when `m < 0` (`X`,`Y` for odd `m`) -/
+theorem name_suffix_iff_cosine (n m : Int) (h : Valid n m) (hn : 2 ≤ n) (k : Int × Int × Int × Int)
+    (hk : Generated.C11.nameKey n m = some k) :
+    (0 < m ↔ (k.2.2.2 = 0 ∨ k.2.2.2 = 2)) ∧ (m % 2 = 1 ↔ (k.2.2.2 = 0 ∨ k.2.2.2 = 1)) := by
+  rw [gen_nameKey n m h] at hk
+  have e := Option.some.inj hk
+  subst e
+  rcases nameKey_cases n m h with ⟨_, _, k⟩ | ⟨_, _, k⟩ | ⟨_, _, k⟩ | ⟨_, _, k⟩ | ⟨_, _, k⟩ | ⟨_, _, _, k⟩ | ⟨_, _, _, k⟩ | ⟨_, _, _, k⟩ | ⟨_, _, _, k⟩ <;>
+  (rw [k]; simp <;> omega)
+
+/-- Noll's rule in terms of the names: for every Noll index `j ≥ 1` whose order has `m ≠ 0` and `n ≥ 2`, `j` is even exactly when the
+    name `nm_to_name(*noll_to_nm(j))` is a cosine term (suffix `X` or `00°`) — the two translated functions agree on the convention -/
+theorem noll_even_iff_cosine_name (j : Int) (hj : 1 ≤ j) (q : Int × Int) (h : Generated.C11.nollToNm j = some q)
+    (hm : q.2 ≠ 0) (hn : 2 ≤ q.1) (k : Int × Int × Int × Int) (hk : Generated.C11.nameKey q.1 q.2 = some k) :
+    (j % 2 = 0 ↔ (k.2.2.2 = 0 ∨ k.2.2.2 = 2)) := by
+  obtain ⟨q', hq', hv⟩ := noll_valid j hj
+  rw [h] at hq'
+  have := Option.some.inj hq'
+  subst this
+  rw [noll_even_iff_cosine j hj q h hm]
+  exact (name_suffix_iff_cosine q.1 q.2 hv hn k hk).1
+
+example : ∃ j q k, 1 ≤ j ∧ Generated.C11.nollToNm j = some q ∧ q.2 ≠ 0 ∧ 2 ≤ q.1 ∧ Generated.C11.nameKey q.1 q.2 = some k :=
+  ⟨nmToNoll 3 1, (3, 1), (4, 1, 1, 0), (noll_surjective 3 1 (by decide)).1, (noll_surjective 3 1 (by decide)).2, by decide, by decide,
+   by rw [gen_nameKey _ _ (by decide)]; rfl⟩
+
+
+/-- the key rule of `zernikes_to_magnitude_angle` (`len(split) < 3 and 'Tilt' not in name`, translated): the names of piston, defocus and the
+    spherical terms are kept whole; `Tilt X/Y` and the three-word names lose their last word (the suffix) — so the dict key of a class is its
+    name structure without the suffix, which `magang_name_keys_injective` shows one-to-one on the classes -/
+theorem gen_keepsWholeName (kind : Int) (h0 : 0 ≤ kind) (h4 : kind ≤ 4) :
+    Generated.C11.keepsWholeName (nameWords kind) (decide (kind = 1)) = decide (kind = 0 ∨ kind = 2 ∨ kind = 3) := by
+  have : kind = 0 ∨ kind = 1 ∨ kind = 2 ∨ kind = 3 ∨ kind = 4 := by omega
+  rcases this with rfl | rfl | rfl | rfl | rfl <;> decide
+
+/-- no word of the two name tables contains a blank or is empty (so the word count of a name is the one of its kind) -/
+theorem names_words_have_no_blank :
+    (Generated.C11.namesTable.all fun e => e.2.toList.all (· ≠ ' ') && e.2.toList ≠ []) = true ∧
+    (Generated.C11.namesMTable.all fun e => e.2.toList.all (· ≠ ' ') && e.2.toList ≠ []) = true := by
+  constructor <;> decide
 
 end C11
